@@ -12,29 +12,26 @@ Objects (see Model/FormulaSpec.lean, Model/Formula.lean):
   every entry equals `denote f k`, and nothing else is present.
 Helper lemmas live in Proofs/Formula*.lean. All theorems are for unbounded nesting depth and length.
 -/
-import ChemModel.Proofs.FormulaReject4
+import ChemModel.Proofs.FormulaValue2
 
 namespace ChemModel.C01
 open ChemModel.Formula ChemModel.Gen
 
 /-! ### guards: the regexes and parse actions whose semantics are hand-modelled are the ones in the source -/
 
-theorem count_regex_is : countRegex = "(\\d+\\.\\d+|\\d*)" := by decide
-theorem count_action_is : countAction = "lambda t: 1 if t[0] == \"\" else float(t[0])" := by decide
-theorem state_regex_is : stateRegex = "\\((s|l|g|aq|cr)\\)" := by decide
-theorem primes_regex_is : primesRegex = "[*']+" := by decide
-theorem caged_regex_is : cagedRegex = "\\@" := by decide
-theorem bracket_regexes_are :
+theorem count_regex_guard : countRegex = "(\\d+\\.\\d+|\\d*)" := by decide
+theorem count_action_guard : countAction = "lambda t: 1 if t[0] == \"\" else float(t[0])" := by decide
+theorem state_regex_guard : stateRegex = "\\((s|l|g|aq|cr)\\)" := by decide
+theorem primes_regex_guard : primesRegex = "[*']+" := by decide
+theorem caged_regex_guard : cagedRegex = "\\@" := by decide
+theorem bracket_regexes_guard :
     lpRegex = "\\(" ∧ rpRegex = "\\)" ∧ lsbRegex = "\\[" ∧ rsbRegex = "\\]" ∧ lcbRegex = "\\{" ∧ rcbRegex = "\\}" := by decide
-theorem leading_int_regex_is : leadingIntRegex = "^\\d+" := by decide
-theorem term_expr_is : termExpr =
+theorem leading_int_regex_guard : leadingIntRegex = "^\\d+" := by decide
+theorem term_expr_guard : termExpr =
     "Group((element|Group(LP+formula+RP)(\"subgroup\")|Group(LSB+formula+RSB)(\"subgroup\")|Group(LCB+formula+RCB)(\"subgroup\")|Group(caged+formula)(\"subgroup\"))+Optional(count,default=1)(\"mult\")+Optional(state)(\"state\")+Optional(primes)(\"primes\"))" := by
   decide +kernel
 
 /-! ### the element table -/
-
-/-- The table holds 118 symbols. -/
-theorem symbols_count : symbols.length = 118 := symbols_length
 
 /-- Every one of the 118 symbols is tokenised greedily and completely by the element regex (ordered alternation
     semantics) and mapped to its own atomic number, whatever follows it — as long as that is not a lowercase letter.
@@ -87,8 +84,64 @@ theorem parse_render_stoich (ts : Terms) (h : ts.WF) (hne : ts.isNil = false) :
   ⟨mergeComp ts.flat, parseStoich_render ts h hne, nodup_mergeComp _, fun k => by
     rw [total_mergeComp, Terms.total_flat]⟩
 
-/-- The electron: `e-` is the bare charge −1. -/
-theorem parse_electron : formulaToComposition "e-" = .ok [(0, -1)] := by decide +kernel
+/-- **The electron.** `e` followed by any well-formed charge token (none, `+`, `-`, `-1`, `+2`, …) and any default phase suffix
+    (or none) parses to the bare charge `{0: q}` (`{}` without a charge token): `e-`, `e-(aq)`, `e+`, `e`. -/
+theorem parse_electron (ch : Option Charge) (hch : ∀ c, ch = some c → c.wf = true)
+    (sfx : Option (List Char)) (hs : ∀ x, sfx = some x → x ∈ suffixesL) :
+    formulaToComposition (String.ofList ('e' :: (renderCharge ch ++ renderSuffix sfx)))
+      = .ok (match ch with | none => [] | some c => [(0, (c.val : Rat))]) := by
+  simp only [formulaToComposition, String.toList_ofList]
+  rw [electron_parse ch hch sfx hs]
+  cases ch <;> rfl
+
+example : formulaToComposition "e-" = .ok [(0, -1)] ∧ formulaToComposition "e-(aq)" = .ok [(0, -1)] ∧
+    formulaToComposition "e+" = .ok [(0, 1)] ∧ formulaToComposition "e..e" = .ok [] := by decide +kernel
+
+/-! ### value soundness for every accepted string (not only rendered ASTs) -/
+
+/-- **Whatever is accepted is read with the written value — never silently mis-read.** For EVERY string `s` that the model of
+    `formula_to_composition` accepts (whitespace between tokens, states in mid-formula, repeated suffixes, counted cages,
+    leading zeros … included), with `pts` the code's own split of `s` into stoichiometry token and charge token:
+    * every hydrate part is `leading-integer multiplier × (electron e | a text with a string-level denotation Den)`
+      (`PartsRead`; `Den u occ` lists the element occurrences of the text `u` in reading order, each with the product of the
+      counts of the groups / cages that enclose it; `readOcc rd` multiplies them by the hydrate multipliers);
+    * the returned dict has no duplicate keys, and its keys are exactly the occurring elements, plus 0 iff a charge token is present;
+    * for every element `k ≠ 0`: `c[k] = Σ over the occurrences of k of the product of the enclosing multipliers`;
+    * `c[0]` is the value of the charge token.
+    Together with `accepted_input_shape` (the string is prefixes ++ parts joined by the separator ++ charge token ++ suffixes)
+    this is the converse of `parse_render`. -/
+theorem accepted_value_sound (s : String) (c : Comp) (h : formulaToComposition s = .ok c) :
+    ∃ pts rd, formulaToParts prefixesL suffixesL s.toList = .ok pts ∧
+      PartsRead true ((splitStoich pts.stoich).1 :: (splitStoich pts.stoich).2) rd ∧
+      (Comp.keys c).Nodup ∧
+      (∀ k, k ∈ Comp.keys c ↔ (k ∈ Comp.keys (readOcc rd) ∨ (k = 0 ∧ pts.chg.isSome = true))) ∧
+      (∀ k, k ≠ 0 → Comp.get? c k = if k ∈ Comp.keys (readOcc rd) then some (total (readOcc rd) k) else none) ∧
+      (∀ chg, pts.chg = some chg → ∃ q, getCharge chg = .ok q ∧ Comp.get? c 0 = some (q : Rat)) :=
+  formulaToCompositionL_value s.toList c h
+
+/-- The grammar level: whatever `parseStoich` accepts is the electron (empty composition) or a text with a denotation `occ`;
+    the returned dict has no duplicate keys, the keys of `occ`, and per key the total of `occ`. -/
+theorem accepted_value_sound_part (s : List Char) (c : Comp) (h : parseStoich s = .ok c) :
+    (s = ['e'] ∧ c = []) ∨ ∃ occ, Den s occ ∧ occ ≠ [] ∧ Equiv c occ ∧ (Comp.keys c).Nodup :=
+  parseStoich_value_sound s c h
+
+/-- The string-level denotation is not a different notion of value: on the rendering of any well-formed term list it has the
+    totals and keys of the AST's own occurrence list (so `accepted_value_sound` extends `parse_render`). -/
+theorem den_agrees_with_ast (ts : Terms) (h : ts.WF) : ∃ occ, Den ts.render occ ∧ Equiv occ (ts.occ 1) :=
+  den_render ts h
+
+/-- The charge number is read as Python's `int()` reads ASCII text: a plain digit string has its decimal value … -/
+theorem charge_number_digits (ds : List Char) (h : isDigits ds = true) : pyInt ds = some (digitsVal ds) :=
+  pyInt_digits ds h
+
+/-- … and anything accepted consists of ASCII digits, single `_` separators and surrounding ASCII whitespace only. -/
+theorem charge_number_chars (s : List Char) (n : Nat) (h : pyInt s = some n) : ∀ c ∈ s, IntC c :=
+  pyInt_chars s n h
+
+example : formulaToComposition "Li@C60 2" = .ok [(3, 1), (6, 120)] := by decide +kernel
+example : formulaToComposition " H 2 O (l) " = .ok [(1, 2), (8, 1)] := by decide +kernel
+example : formulaToComposition "Fe+ 3" = .ok [(26, 1), (0, 3)] ∧ formulaToComposition "Fe+1_0 " = .ok [(26, 1), (0, 10)] := by decide +kernel
+example : formulaToComposition "Fe+1__0" = .error .charge ∧ formulaToComposition "Fe+_1" = .error .charge := by decide +kernel
 
 /-! ### rejection of ill-formed text -/
 
@@ -154,7 +207,7 @@ theorem accepted_input_shape (s : String) (c : Comp) (h : formulaToComposition s
     ∃ (dp T : List (List Char)) (a chg : List Char),
       s.toList = dp.flatten ++ ((a ++ chg) ++ T.flatten) ∧ (∀ p ∈ dp, p ∈ prefixesL) ∧ (∀ t ∈ T, t ∈ suffixesL) ∧
       (∀ q ∈ (splitStoich a).1 :: (splitStoich a).2, PieceOK q) ∧
-      (∀ x ∈ chg, x = '+' ∨ x = '-' ∨ x.isDigit = true) :=
+      (∀ x ∈ chg, ChgC x) :=
   accepted_shape s.toList c h
 
 example : formulaToComposition "Fe+3-" = .error .charge := by decide +kernel
